@@ -90,7 +90,13 @@ def stmt_sim(z, q, dkw, t_max, rng, cx=True, kT_inj=None, dr=False, history=None
     N0 = np.where(np.arange(z + 1) == q, nl, 0.0)
     rb = ebisim.basic_simulation(z, dev.j, dev.e_kin, t_max, dr_fwhm=(dev.fwhm if dr else None), N_initial=N0, CNI=True, solver_kwargs=dict(rtol=1e-10, atol=1e-12 * nl, dense_output=True))
     from ebisim.simulation._result import Rate
-    fei_min = float(np.min(ra.rates[Rate.F_EI][1:, :])) if ra.rates else 1.0
+    # overlap of the states that actually carry population (an empty state starts hot — fwhm x q — and has a small overlap factor, but
+    # contributes nothing to the distribution): the deviation from the ideal-overlap limit is driven by the populated ones
+    if ra.rates:
+        f_ = ra.rates[Rate.F_EI][1:, :]; pop = ra.N[1:, :] > 1e-3 * nl
+        fei_min = float(np.min(f_[pop])) if pop.any() else 1.0
+    else:
+        fei_min = 1.0
     worst = 0.0
     for i in range(ra.t.size):
         b = rb.abundance_at_time(ra.t[i])
@@ -175,6 +181,9 @@ def search(ctx):
         d2 = dict(dkw) if fw is None else dict(dkw, fwhm=fw)
         V += stmt_sim(z, cs, d2, float(rng.uniform(2e-2, 4e-2)), rng, cx=False, dr=True, history=list(hist)); ctx.count("simulations")
         hist.append(d2)
+    # … and with dielectronic recombination switched OFF at the same resonance: the advanced run must then agree with the basic simulation
+    # run without a width (the resonance is there in the tables, but the effect is disabled)
+    V += stmt_sim(z, cs, dict(dkw), float(rng.uniform(2e-2, 4e-2)), rng, cx=False, dr=False); ctx.count("simulations")
     # the ideal cold limit itself: injection at the temperature floor
     from ebisim.physconst import MINIMAL_KBT
     # (a grid fine enough to resolve a 1 meV cloud: q dphi_1 / 500 <= kT, the limit C03 names; 400 nodes, moderate perveance)
